@@ -53,14 +53,79 @@ def default_transform(idx: ProgramIndex, cls: ClassInfo) -> Tuple[str, str]:
     return (chain(t) or src(t)).split(".")[-1], (chain(it) or src(it)).split(".")[-1]
 
 
-def eval_method(fi: FuncInfo, prim: str, arg_val: Optional[Val] = None) -> Dict[bool, object]:
+class StaleCopy(Exception):
+    """a transform reads a stored copy of bound-derived state that some writer of the bounds does not refresh"""
+
+
+BOUNDS = ("lower_bound", "upper_bound")
+
+
+def _writes_bounds(m: FuncInfo):
+    """line of the last statement of method m that (re-)writes a bound buffer, or None"""
+    last = None
+    for n in ast.walk(m.node):
+        if isinstance(n, ast.Assign) and any(isinstance(t, ast.Attribute) and t.attr in BOUNDS and isinstance(t.value, ast.Name) and t.value.id == m.params[0] for t in n.targets):
+            last = max(last or 0, n.lineno)
+        elif isinstance(n, ast.Call) and isinstance(n.func, ast.Attribute):
+            if n.func.attr == "register_buffer" and n.args and const_str(n.args[0]) in BOUNDS:
+                last = max(last or 0, n.lineno)
+            elif n.func.attr == "_load_from_state_dict" and isinstance(n.func.value, ast.Call) and chain(n.func.value.func) == "super":
+                last = max(last or 0, n.lineno)  # torch copies the loaded values into the registered buffers in place
+            elif n.func.attr in ("copy_", "fill_", "set_") and isinstance(n.func.value, ast.Attribute) and n.func.value.attr in BOUNDS:
+                last = max(last or 0, n.lineno)
+    return last
+
+
+def bound_attr_resolver(cls: ClassInfo):
+    """resolves `self.<attr>` inside transform / inverse_transform: a property is replaced by what it returns; a stored attribute by
+    the expression the constructor stores - provided EVERY method that writes the bounds re-assigns it afterwards (otherwise the copy
+    goes stale and the map is no longer pinned to the current bounds: StaleCopy)"""
+    def resolve(attr: str):
+        f = cls.lookup(attr)
+        if f is not None and f.kind == "property":
+            rets = [r.value for r in ast.walk(f.node) if isinstance(r, ast.Return) and r.value is not None]
+            return rets[0] if len(rets) == 1 else None
+        stores = {}
+        methods = {}
+        for k in cls.mro():
+            for name, m in getattr(k, "methods", {}).items():
+                methods.setdefault(name, m)
+        for name, m in methods.items():
+            if not m.params:
+                continue
+            for n in ast.walk(m.node):
+                if isinstance(n, ast.Assign) and any(isinstance(t, ast.Attribute) and t.attr == attr and isinstance(t.value, ast.Name) and t.value.id == m.params[0] for t in n.targets):
+                    stores.setdefault(name, []).append(n)
+        if "__init__" not in stores:
+            return None
+        if "_load_from_state_dict" not in methods or _writes_bounds(methods["_load_from_state_dict"]) is None:
+            raise StaleCopy("`self.%s` is a stored copy of bound-derived state; load_state_dict copies new bounds into the buffers in place and nothing refreshes the copy" % attr)
+        for name, m in methods.items():
+            w = _writes_bounds(m) if m.params else None
+            if w is None:
+                continue
+            if not any(n.lineno > w for n in stores.get(name, [])):
+                raise StaleCopy("`self.%s` is a copy of bound-derived state stored by the constructor; %s re-writes the bounds (line %d) without refreshing it, so afterwards the map is no longer pinned to the current [lower_bound, upper_bound]" % (attr, m.qualname, w))
+        e = stores["__init__"][-1].value
+        # the constructor's locals lower_bound / upper_bound are the registered buffers
+        class _R(ast.NodeTransformer):
+            def visit_Name(self, n):
+                if n.id in BOUNDS:
+                    return ast.copy_location(ast.Attribute(value=ast.Name(id="self", ctx=ast.Load()), attr=n.id, ctx=ast.Load()), n)
+                return n
+        import copy
+        return ast.fix_missing_locations(_R().visit(copy.deepcopy(e)))
+    return resolve
+
+
+def eval_method(fi: FuncInfo, prim: str, arg_val: Optional[Val] = None, resolver=None) -> Dict[bool, object]:
     """-> {enforced: Val | 'identity' | None}"""
     sn, arg = fi.params[0], fi.params[1]
     out: Dict[bool, object] = {}
     for enforced in (True, False):
         results = []
         for p in enumerate_paths(body_without_docstring(fi.node)):
-            te = TransformEval(sn, arg, prim, arg_val)
+            te = TransformEval(sn, arg, prim, arg_val, resolver)
             feasible = True
             ret = None
             for s in p.steps:
@@ -147,6 +212,7 @@ def run(idx: ProgramIndex, rep: Report, tier: str):
     sampling_and_writes(idx, rep)
     composite_prior_terms(idx, rep)
     setters_convert_numbers(idx, rep)
+    inverse_follows_transform(idx, rep)
 
 
 # ---- C17-1 / C17-2 -------------------------------------------------------------------------------------------------
@@ -180,7 +246,14 @@ def transforms(idx: ProgramIndex, rep: Report):
                 "default transform %s is paired with inverse %s (expected %s)" % (tname, iname, INVERSE_OF.get(tname)), {})
         tf = cls.lookup("transform")
         inv = cls.lookup("inverse_transform")
-        res = eval_method(tf, tname)
+        rs = bound_attr_resolver(cls)
+        try:
+            eval_method(tf, tname, None, rs)
+            eval_method(inv, tname, None, rs)
+        except StaleCopy as ex:
+            rep.add("C17-1", inst + ".transform[range]", tf.where, False, str(ex), {})
+            continue
+        res = eval_method(tf, tname, None, rs)
         lo_s, hi_s = SPEC[cls.name]
         v = res[True]
         if v == "identity" or v is None:
@@ -197,18 +270,18 @@ def transforms(idx: ProgramIndex, rep: Report):
         rep.add("C17-1", inst + ".transform[not enforced]", tf.where, res[False] == "identity",
                 "returns the argument unchanged when no transform is set" if res[False] == "identity" else "the not-enforced path does not return the argument unchanged", {})
         # inverse: compose
-        ires = eval_method(inv, tname)
+        ires = eval_method(inv, tname, None, rs)
         iv = ires[True]
         if iv == "identity" or iv is None:
             rep.add("C17-2", inst + "[transform o inverse]", inv.where, False, "enforced inverse_transform returns its argument unchanged", {})
         else:
-            comp = eval_method(tf, tname, Val(iv.nf, NINF, INF, None, False))[True]
+            comp = eval_method(tf, tname, Val(iv.nf, NINF, INF, None, False), rs)[True]
             ok = comp != "identity" and comp.nf == atom("x")
             rep.add("C17-2", inst + "[transform o inverse]", inv.where, ok,
                     "transform(inverse_transform(y)) rewrites to y" if ok else "transform(inverse_transform(y)) rewrites to %r, not y" % (comp.nf if comp != "identity" else "identity"),
                     {"inverse_normal_form": repr(iv.nf)})
             if v not in ("identity", None):
-                comp2 = eval_method(inv, tname, Val(v.nf, NINF, INF, None, False))[True]
+                comp2 = eval_method(inv, tname, Val(v.nf, NINF, INF, None, False), rs)[True]
                 ok2 = comp2 != "identity" and comp2.nf == atom("x")
                 rep.add("C17-2", inst + "[inverse o transform]", inv.where, ok2,
                         "inverse_transform(transform(x)) rewrites to x" if ok2 else "inverse_transform(transform(x)) rewrites to %r, not x" % (comp2.nf if comp2 != "identity" else "identity"), {})
@@ -873,3 +946,103 @@ def setters_convert_numbers(idx: ProgramIndex, rep: Report):
                 "non-tensors are converted before inverse_transform" if converts else
                 "`%s` receives the argument as it is: a python number raises TypeError in the default inverse transforms (expm1 / log of a float) - all other setters convert with torch.as_tensor(value).to(raw parameter) first" % " ".join(src(inv[0]).split())[:70], {})
     rep.floor("C17-9", "setters that call inverse_transform", n, 25)
+
+
+# ---- C17-10 --------------------------------------------------------------------------------------------------------
+def inverse_follows_transform(idx: ProgramIndex, rep: Report):
+    """`Positive(transform=torch.exp)` names a transform and leaves the inverse to the library.  The constructors declare a NON-None
+    default for inv_transform (the inverse of the DEFAULT transform); a look-up of the inverse that belongs to the given transform which
+    only runs under `inv_transform is None` is then dead for exactly these callers: exp is paired with inv_softplus, the setter writes
+    inv_softplus(v) and the parameter reads back exp(inv_softplus(v)) != v.  The constructor must pair the inverse with the transform it
+    was given on a path that does not require inv_transform to be None (or declare None as the default)."""
+    rep.rule("C17-10", "a constraint built with a transform but no inverse does not keep the default inverse of another transform: the inverse is resolved from the given transform on a path that is live for the declared defaults")
+    interval = idx.cls(CONSTRAINTS_MOD, "Interval")
+    n = 0
+    for cls in idx.subclasses(interval):
+        if cls.module.name != CONSTRAINTS_MOD:
+            continue
+        init = cls.lookup("__init__")
+        a = init.node.args
+        names = [x.arg for x in a.args]
+        defaults = dict(zip(names[len(names) - len(a.defaults):], a.defaults))
+        if "transform" not in defaults or "inv_transform" not in defaults:
+            continue
+        n += 1
+        d = defaults["inv_transform"]
+        none_default = isinstance(d, ast.Constant) and d.value is None
+        base_init = interval.methods["__init__"]
+        # assignments of self._inv_transform in the base constructor and the tests around them
+        live = False
+        for node in ast.walk(base_init.node):
+            if not (isinstance(node, ast.Assign) and any(isinstance(t, ast.Attribute) and t.attr == "_inv_transform" for t in node.targets)):
+                continue
+            uses_transform = any(isinstance(x, ast.Name) and x.id == "transform" for x in ast.walk(node.value)) or \
+                any(isinstance(x, ast.Name) and x.id in _derived_from(base_init, "transform") for x in ast.walk(node.value))
+            if not uses_transform:
+                continue
+            tests = _guards_of(base_init.node, node)
+            needs_none = any(_requires_none(t, pos, "inv_transform") for t, pos in tests)
+            if not needs_none:
+                live = True
+        ok = none_default or live
+        rep.add("C17-10", "%s:%s.__init__[inverse of a given transform]" % (cls.module.name, cls.qualname), init.where, ok,
+                ("inv_transform defaults to None: the inverse is looked up from the transform" if none_default else "the inverse is paired with the given transform on a path that does not need inv_transform to be None") if ok else
+                "inv_transform defaults to `%s` and the constructor resolves the inverse from `transform` only under `inv_transform is None`: %s(transform=torch.exp) keeps %s - transform(inverse_transform(0.9)) = 1.46, and the setter of the constrained parameter stores a value that reads back differently" % (src(d), cls.name, src(d)), {})
+    rep.floor("C17-10", "constraint constructors with transform / inv_transform defaults", n, 4)
+
+
+def _derived_from(fi: FuncInfo, name: str) -> set:
+    out = set()
+    changed = True
+    while changed:
+        changed = False
+        for a in ast.walk(fi.node):
+            if isinstance(a, ast.Assign) and len(a.targets) == 1 and isinstance(a.targets[0], ast.Name) and a.targets[0].id not in out:
+                if any(isinstance(x, ast.Name) and (x.id == name or x.id in out) for x in ast.walk(a.value)):
+                    out.add(a.targets[0].id)
+                    changed = True
+    return out
+
+
+def _guards_of(fn: ast.AST, target: ast.AST):
+    """[(test, True/False)] for every if / elif around `target` inside fn (False: target sits in the else branch)"""
+    out = []
+
+    def walk(node, acc):
+        for child in ast.iter_child_nodes(node):
+            if isinstance(child, ast.If):
+                for b in child.body:
+                    if b is target or any(x is target for x in ast.walk(b)):
+                        walk_into(b, acc + [(child.test, True)])
+                for b in child.orelse:
+                    if b is target or any(x is target for x in ast.walk(b)):
+                        walk_into(b, acc + [(child.test, False)])
+            else:
+                if child is target:
+                    out.extend(acc)
+                else:
+                    walk(child, acc)
+
+    def walk_into(node, acc):
+        if node is target:
+            out.extend(acc)
+        else:
+            walk(node, acc) if not isinstance(node, ast.If) else walk(ast.Module(body=[node], type_ignores=[]), acc)
+    walk(fn, [])
+    return out
+
+
+def _requires_none(test: ast.AST, positive: bool, name: str) -> bool:
+    """does being in this branch imply `name is None`?"""
+    if isinstance(test, ast.BoolOp) and isinstance(test.op, ast.And) and positive:
+        return any(_requires_none(v, True, name) for v in test.values)
+    if isinstance(test, ast.BoolOp) and isinstance(test.op, ast.Or) and not positive:
+        return any(_requires_none(v, False, name) for v in test.values)
+    if isinstance(test, ast.UnaryOp) and isinstance(test.op, ast.Not):
+        return _requires_none(test.operand, not positive, name)
+    if isinstance(test, ast.Compare) and len(test.ops) == 1 and isinstance(test.left, ast.Name) and test.left.id == name and isinstance(test.comparators[0], ast.Constant) and test.comparators[0].value is None:
+        if isinstance(test.ops[0], ast.Is):
+            return positive
+        if isinstance(test.ops[0], ast.IsNot):
+            return not positive
+    return False
